@@ -1,7 +1,10 @@
 package props
 
 import (
+	"bytes"
+	"encoding/json"
 	"fmt"
+	"github.com/AsaiYusuke/jsonpath"
 	"reflect"
 
 	"pgregory.net/rapid"
@@ -63,6 +66,33 @@ func deepSame(a, b interface{}) bool {
 	if va.Type() != vb.Type() {
 		return false
 	}
+	// wrappers built by the harness around a document of their own (two builds of one case give
+	// two wrappers): the same if what they hold is the same
+	switch ta := a.(type) {
+	case *interface{}:
+		if tb := b.(*interface{}); ta != tb {
+			return ta != nil && tb != nil && deepSame(*ta, *tb)
+		}
+		return true
+	case *map[string]interface{}:
+		if tb := b.(*map[string]interface{}); ta != tb {
+			return ta != nil && tb != nil && deepSame(*ta, *tb)
+		}
+		return true
+	case *[]interface{}:
+		if tb := b.(*[]interface{}); ta != tb {
+			return ta != nil && tb != nil && deepSame(*ta, *tb)
+		}
+		return true
+	case json.RawMessage:
+		return bytes.Equal(ta, b.(json.RawMessage))
+	case jsonpath.Accessor:
+		tb := b.(jsonpath.Accessor)
+		if (ta.Get == nil) != (tb.Get == nil) || (ta.Set == nil) != (tb.Set == nil) {
+			return false
+		}
+		return ta.Get == nil || deepSame(ta.Get(), tb.Get())
+	}
 	switch va.Kind() {
 	case reflect.Func, reflect.Chan, reflect.Map, reflect.Slice, reflect.Ptr, reflect.UnsafePointer:
 		if spec.IsOpaque(a) {
@@ -70,6 +100,49 @@ func deepSame(a, b interface{}) bool {
 		}
 	}
 	return reflect.DeepEqual(a, b)
+}
+
+// accessorModeAgainstSpec evaluates the case in accessor mode: opaque values are leaves there as
+// well. Every result is an Accessor whose Get() is SPEC's value and whose Set is nil exactly for
+// values that are not a location of the document; failure iff SPEC selects nothing.
+func accessorModeAgainstSpec(c *Case, res *spec.Result, st *Stats) string {
+	acc := evalLibrary(c, c.Document(), true)
+	st.Eval(1)
+	st.Class("accessor-mode")
+	if acc.parseErr != nil {
+		return fmt.Sprintf("accessor mode: generated path was rejected by Parse: %v", acc.parseErr)
+	}
+	if len(res.Nodes) == 0 {
+		if acc.err == nil {
+			return fmt.Sprintf("accessor mode: SPEC selects nothing but the library returned %d accessors %s", len(acc.got), JSONString(acc.got))
+		}
+		if !DescribeErr(acc.err).IsRuntime() {
+			return fmt.Sprintf("accessor mode: not a documented runtime error: %T %v", acc.err, acc.err)
+		}
+		return ""
+	}
+	if acc.err != nil {
+		return fmt.Sprintf("accessor mode: SPEC selects %s but the library failed: %v", JSONString(res.Values()), acc.err)
+	}
+	if len(acc.got) != len(res.Nodes) {
+		return fmt.Sprintf("accessor mode: %d accessors, SPEC selects %d values", len(acc.got), len(res.Nodes))
+	}
+	for i, v := range acc.got {
+		a, ok := v.(jsonpath.Accessor)
+		if !ok {
+			return fmt.Sprintf("accessor-mode result %d is %T, not an Accessor", i, v)
+		}
+		if a.Get == nil {
+			return fmt.Sprintf("accessor %d has a nil Get", i)
+		}
+		if got := a.Get(); !deepSame(got, res.Nodes[i].V) {
+			return fmt.Sprintf("accessor %d Get() = %s, SPEC value %s", i, JSONString(got), JSONString(res.Nodes[i].V))
+		}
+		if (a.Set == nil) == res.Nodes[i].HasLoc {
+			return fmt.Sprintf("accessor %d: Set is nil = %v but the value is a location of the document = %v (%s)", i, a.Set == nil, res.Nodes[i].HasLoc, locString(res.Nodes[i].Loc))
+		}
+	}
+	return ""
 }
 
 func checkC20(c *Case, st *Stats) string {
@@ -114,6 +187,11 @@ func checkC20(c *Case, st *Stats) string {
 			return msg
 		}
 		st.Class("outcome:" + info.Type)
+	}
+	if len(c.Path)%3 == 1 {
+		if msg := accessorModeAgainstSpec(c, res, st); msg != "" {
+			return msg
+		}
 	}
 	for tn, k := range res.TouchedT {
 		st.ClassN("touched:"+tn, k)
